@@ -220,7 +220,7 @@ fn cmd_run(a: &Args) -> i32 {
     let scale: f64 = a.opts.get("scale").and_then(|s| s.parse().ok()).unwrap_or(1.0);
     let replay_dir = a.opts.get("replay-dir").cloned().unwrap_or_else(|| "/verif/replays".into());
     let known_path = a.opts.get("known").cloned().unwrap_or_else(|| "/verif/known_findings.json".into());
-    let hang_ms = std::env::var("DMSIM_HANG_MS").ok().and_then(|s| s.parse().ok()).unwrap_or(60_000u64);
+    let hang_ms = std::env::var("DMSIM_HANG_MS").ok().and_then(|s| s.parse().ok()).unwrap_or(120_000u64);
 
     println!("dmsim run property={} tier={} profile={} VERIF_SEED={} workers={}", prop, tier, PROFILE, seed, workers);
     let t0 = Instant::now();
@@ -266,7 +266,7 @@ fn cmd_run(a: &Args) -> i32 {
 
     // ---- hang ----
     if let Some(h) = hang {
-        return handle_hang(&ctx, &prop, seed, h, hang_ms, &replay_dir, a);
+        return handle_hang(&prop, seed, h, hang_ms, &replay_dir);
     }
 
     // ---- violations: known findings vs new ----
@@ -370,58 +370,29 @@ fn phases_clone_guard(p: Vec<Phase>) -> Vec<Phase> {
     p
 }
 
-fn handle_hang(ctx: &Arc<Ctx>, prop: &str, seed: u64, h: runner::HangReport, hang_ms: u64, replay_dir: &str, a: &Args) -> i32 {
-    // rebuild the phase list to regenerate the trace of the run that did not finish
-    let tier = a.opts.get("tier").cloned().unwrap_or_else(|| "quick".into());
-    let scale: f64 = a.opts.get("scale").and_then(|s| s.parse().ok()).unwrap_or(1.0);
-    let b = budget(prop, &tier, seed, scale);
-    let mut sources: Vec<Source> = Vec::new();
-    if !a.opts.contains_key("no-sweeps") {
-        for s in b.sweeps {
-            sources.push(s.source);
-        }
-    }
-    sources.push(Source::Random { prop: prop.to_string(), seed });
-    let src = &sources[h.phase.min(sources.len() - 1)];
-    let (rs, trace) = src.trace(ctx, h.index);
-    println!("run {} of phase {} exceeded {} ms; re-executing it in isolation", h.index, src.name(), hang_ms);
-    // isolated re-execution with the same limit
-    let ctx2 = ctx.clone();
-    let t2 = trace.clone();
-    let (tx, rx) = std::sync::mpsc::channel();
-    std::thread::spawn(move || {
-        let o = execute(&ctx2, &t2, &runner::exec_opts_for(&t2.prop));
-        let _ = tx.send(o.violations.len());
-    });
-    match rx.recv_timeout(std::time::Duration::from_millis(hang_ms)) {
-        Ok(_) => {
-            eprintln!("harness note: the run finished in isolation; the stall was not reproducible (machine load?). Treating as harness error.");
-            2
-        }
-        Err(_) => {
-            let _ = std::fs::create_dir_all(replay_dir);
-            let path = format!("{}/{}-{}-{}-{}-{}-hang.json", replay_dir, prop, PROFILE, seed, src.name(), h.index);
-            let rj = J::obj()
-                .with("property", J::s(prop))
-                .with("class", J::s("hang"))
-                .with("detail", J::s(&format!("a consumer entry point did not return within {} ms, twice", hang_ms)))
-                .with("profile", J::s(PROFILE))
-                .with("verif_seed", J::Int(seed as i64))
-                .with("phase", J::s(&src.name()))
-                .with("run_index", J::Int(h.index as i64))
-                .with("run_seed", J::s(&format!("{:016x}", rs)))
-                .with("minimised", trace.to_json())
-                .with("original", trace.to_json());
-            let _ = std::fs::write(&path, rj.to_string_pretty());
-            if prop == "C05" || prop == "C03" {
-                println!("VIOLATION property={} replay={}", prop, path);
-                println!("  class=hang");
-                1
-            } else {
-                eprintln!("a run hangs (replay {}); non-termination belongs to C05, not to {}", path, prop);
-                2
-            }
-        }
+fn handle_hang(prop: &str, seed: u64, h: runner::HangReport, hang_ms: u64, replay_dir: &str) -> i32 {
+    println!("run {} of phase {} exceeded {} ms, also when re-executed in isolation", h.index, h.phase, hang_ms);
+    let _ = std::fs::create_dir_all(replay_dir);
+    let path = format!("{}/{}-{}-{}-{}-{}-hang.json", replay_dir, prop, PROFILE, seed, h.phase, h.index);
+    let rj = J::obj()
+        .with("property", J::s(prop))
+        .with("class", J::s("hang"))
+        .with("detail", J::s(&format!("a consumer entry point did not return within {} ms, twice", hang_ms)))
+        .with("profile", J::s(PROFILE))
+        .with("verif_seed", J::Int(seed as i64))
+        .with("phase", J::s(&h.phase))
+        .with("run_index", J::Int(h.index as i64))
+        .with("run_seed", J::s(&format!("{:016x}", h.run_seed)))
+        .with("minimised", h.trace.to_json())
+        .with("original", h.trace.to_json());
+    let _ = std::fs::write(&path, rj.to_string_pretty());
+    if prop == "C05" || prop == "C03" {
+        println!("VIOLATION property={} replay={}", prop, path);
+        println!("  class=hang");
+        1
+    } else {
+        eprintln!("a run hangs (replay {}); non-termination belongs to C05, not to {}", path, prop);
+        2
     }
 }
 
@@ -494,6 +465,8 @@ fn evidence_json(
         .with("simulated_time_note", J::s("the system has no clock; simulated time is the number of transmissions"))
         .with("runs_per_hour", J::Int((st.runs as f64 / wall.max(1e-9) * 3600.0) as i64))
         .with("workers", J::i(workers))
+        .with("slowest_single_run_ms", J::Num((st.slowest_run_us as f64) / 1000.0))
+        .with("slowest_single_run", J::s(&st.slowest_run_desc))
         .with("batch_digest", J::s(&format!("{:016x}", st.digest)))
         .with("distinct_signatures_all", J::Int(st.sigs.len() as i64))
         .with("runs_with_a_fired_fault", J::Int(st.runs_with_fault_fired as i64))
@@ -717,7 +690,7 @@ fn cmd_replay(a: &Args) -> i32 {
     let prop = j.get("property").and_then(|x| x.as_str()).unwrap_or("").to_string();
     let class = j.get("class").and_then(|x| x.as_str()).unwrap_or("").to_string();
     let ctx = Arc::new(Ctx::new());
-    let hang_ms = std::env::var("DMSIM_HANG_MS").ok().and_then(|s| s.parse().ok()).unwrap_or(60_000u64);
+    let hang_ms = std::env::var("DMSIM_HANG_MS").ok().and_then(|s| s.parse().ok()).unwrap_or(120_000u64);
     let mut reproduced_all = true;
     let mut any = false;
     for which in ["minimised", "original"] {
